@@ -644,6 +644,8 @@ def _date_rule(ctx):
     # the century prefix is applied before the fields are read
     rejecting = {nd.id for nd in g.nodes if nd.kind == 'raise' or (nd.kind == 'return' and A.const(nd.ast.value) is False)}
     funcs = {'int': int, 'len': len}
+    from ..absint import helper_oracles as _ho
+    hf_dates = _ho(ctx, 'validation')
     cnt = [0]
     # constant tables of the module (a month-length table, for instance) are part of the closed environment
     MODC = {k: v for k, v in A.module_constants(ctx.mod('validation').tree).items() if isinstance(v, (A.FrozenDict, tuple, frozenset))}
@@ -682,6 +684,22 @@ def _date_rule(ctx):
             if acc != set(range(1, nd + 1)):
                 msgs.append('year %d: accepts days %s, calendar says 1..%d' % (y, _rng(acc), nd))
         yield Ob(key, not msgs, where, '; '.join(msgs[:2]), detail={'evaluated': 400})
+    # the documented century window of a 6-digit date (00-49 -> 20xx, 50-99 -> 19xx), decided by running the whole function
+    # on 6-digit values whose verdict depends on the century: 29 February exists in 2000, 2048, 1952, 1996 and not in
+    # 1900 (=00 under a swapped window), 2049, 1950, 1999
+    from ..absint import run_function as _run_f, NotClosedTest as _NCT
+    f6 = {'not_match_re': lambda t, v, *a: not (v.isascii() and v.isdigit()), 'is_valid_time': lambda v: True}
+    bad6 = []
+    for dtp in ('D6', 'DT'):
+        for v6, want6 in (('000229', True), ('000230', False), ('480229', True), ('490229', False), ('500229', False), ('520229', True), ('960229', True),
+                          ('990229', False), ('491231', True), ('500101', True), ('000100', False)):
+            try:
+                got6 = _run_f(ctx.cfg(fn0), fn0, [dtp, v6], dict(hf_dates, **f6), env=dict(MODC))
+            except (_NCT, A.NotClosed) as e:
+                raise AnalysisError('is_valid_date cannot be decided for the 6-digit value %r: %s' % (v6, e))
+            if bool(got6) != want6:
+                bad6.append('is_valid_date(%r, %r) is %r; with the century window 00-49 = 20xx, 50-99 = 19xx the date %s' % (dtp, v6, got6, 'exists' if want6 else 'does not exist'))
+    yield Ob('validation:is_valid_date 6-digit dates use the documented century window', not bad6, where, '' if not bad6 else bad6[0])
     # a 12-character value carries a time: it is checked whatever the month, and its verdict decides
     def rejected_with_time(m, time_ok):
         env0 = dict(MODC)
